@@ -175,12 +175,10 @@ int main(int argc, char* argv[])
 		std::cerr << error.what() << "\n";
 		return -1;
 	}
-#ifdef NDEBUG
-	catch (std::logic_error& error) // in case get_driver is not found
+	catch (std::exception& error) // e.g. get_driver is not found, or a number parser threw
 	{
 		std::cerr << error.what() << "\n";
 		return -1;
 	}
-#endif
 }
 
